@@ -1,9 +1,446 @@
-(* C06/Proofs.v *)
-From Coq Require Import ZArith List Lia Bool Arith.
+(* C06/Proofs.v -- lookup-table and scatter lemmas, the closed form of from_sparse. *)
+From Coq Require Import ZArith List Lia Bool Arith ZifyBool.
 From PV Require Import Base.NpList C06.Model C06.Spec.
 Import ListNotations.
 Open Scope Z_scope.
 
-Lemma from_sparse_dup {A} (zero : A) data cols chans :
+(* ---------- omap ---------- *)
+Lemma omap_map {T U} (f : T -> option U) (g : T -> U) l :
+  (forall x, In x l -> f x = Some (g x)) -> omap f l = Some (map g l).
+Proof.
+  induction l as [|x r IH]; intros H; [reflexivity|]. cbn [omap map].
+  rewrite (H x) by now left. rewrite IH; [reflexivity|]. intros y Hy. apply H. now right.
+Qed.
+
+Lemma omap_length {T U} (f : T -> option U) l r : omap f l = Some r -> length r = length l.
+Proof.
+  revert r; induction l as [|x l IH]; intros r H; cbn [omap] in H.
+  - injection H as <-. reflexivity.
+  - destruct (f x); [|discriminate]. destruct (omap f l) eqn:E; [|discriminate].
+    injection H as <-. cbn [length]. now rewrite (IH l0).
+Qed.
+
+Lemma omap_nth {T U} (f : T -> option U) l r i x :
+  omap f l = Some r -> nth_error l i = Some x -> exists y, f x = Some y /\ nth_error r i = Some y.
+Proof.
+  revert r i; induction l as [|a l IH]; intros r i H Hi; [destruct i; discriminate|].
+  cbn [omap] in H. destruct (f a) eqn:Ea; [|discriminate]. destruct (omap f l) eqn:E; [|discriminate].
+  injection H as <-. destruct i as [|i]; cbn [nth_error] in *.
+  - injection Hi as <-. eauto.
+  - eapply IH; eauto.
+Qed.
+
+(* ---------- small list facts ---------- *)
+Lemma isin_In l x : isin l x = true <-> In x l.
+Proof.
+  unfold isin. rewrite existsb_exists. split.
+  - intros (y & Hy & E). apply Z.eqb_eq in E. now subst.
+  - intros H. exists x. split; [exact H|apply Z.eqb_refl].
+Qed.
+
+Lemma isin_false l x : isin l x = false <-> ~ In x l.
+Proof. rewrite <- isin_In. destruct (isin l x); split; intros; try discriminate; tauto. Qed.
+
+Lemma nodupb_NoDup l : nodupb l = true <-> NoDup l.
+Proof.
+  induction l as [|x r IH]; cbn [nodupb].
+  - split; [constructor|reflexivity].
+  - rewrite andb_true_iff, negb_true_iff, isin_false, IH. split.
+    + intros [H1 H2]. now constructor.
+    + intros H. inversion H; subst. tauto.
+Qed.
+
+Lemma fold_max_ge_init a r : a <= fold_right Z.max a r.
+Proof. induction r as [|b r IH]; cbn [fold_right]; lia. Qed.
+Lemma fold_max_ge_in a r x : In x r -> x <= fold_right Z.max a r.
+Proof.
+  induction r as [|b r IH]; intros H; [destruct H|]. cbn [fold_right].
+  destruct H as [->|H]; [lia|]. specialize (IH H). lia.
+Qed.
+Lemma zmax1_ge l x : In x l -> x <= zmax1 l.
+Proof.
+  destruct l as [|a r]; [intros []|]. cbn [zmax1]. intros [->|H].
+  - apply fold_max_ge_init.
+  - now apply fold_max_ge_in.
+Qed.
+
+Lemma NoDup_map_inj {T U} (f : T -> U) l :
+  NoDup l -> (forall x y, In x l -> In y l -> f x = f y -> x = y) -> NoDup (map f l).
+Proof.
+  induction 1 as [|a l Hn Hd IH]; intros Hinj; cbn [map]; constructor.
+  - rewrite in_map_iff. intros (y & E & Hy). apply Hn.
+    rewrite (Hinj a y); auto; [now left|now right].
+  - apply IH. intros x y Hx Hy. apply Hinj; now right.
+Qed.
+
+Lemma map_fst_combine' {T U} (a : list T) (b : list U) : length a = length b -> map fst (combine a b) = a.
+Proof. revert b; induction a as [|x a IH]; intros [|y b] H; cbn in *; try lia; [reflexivity|]. f_equal. apply IH. lia. Qed.
+
+Lemma nth_error_combine {T U} (a : list T) (b : list U) i x y :
+  nth_error a i = Some x -> nth_error b i = Some y -> nth_error (combine a b) i = Some (x, y).
+Proof.
+  revert b i; induction a as [|a0 a IH]; intros [|b0 b] [|i] Ha Hb; cbn in *; try discriminate.
+  - now injection Ha as ->; injection Hb as ->.
+  - now apply IH.
+Qed.
+
+Lemma arange_length n : length (arange n) = n.
+Proof. unfold arange. now rewrite map_length, seq_length. Qed.
+Lemma arange_nth n q : (q < n)%nat -> nth_error (arange n) q = Some (Z.of_nat q).
+Proof.
+  intros H. unfold arange. rewrite nth_error_map. rewrite nth_error_nth' with (d := O) by now rewrite seq_length.
+  rewrite seq_nth by exact H. reflexivity.
+Qed.
+
+Lemma nth_error_repeat {T} (x : T) n i : (i < n)%nat -> nth_error (repeat x n) i = Some x.
+Proof. revert i; induction n as [|n IH]; intros [|i] H; cbn; try lia; [reflexivity|]. apply IH. lia. Qed.
+
+(* ---------- position of an element ---------- *)
+Lemma find_pos_nth l x q : find_pos l x = Some q -> nth_error l q = Some x.
+Proof.
+  revert q; induction l as [|y r IH]; intros q H; cbn [find_pos] in H; [discriminate|].
+  destruct (y =? x) eqn:E.
+  - injection H as <-. apply Z.eqb_eq in E. now subst.
+  - destruct (find_pos r x) eqn:F; [|discriminate]. injection H as <-. cbn. now apply IH.
+Qed.
+
+Lemma nth_find_pos l x q : NoDup l -> nth_error l q = Some x -> find_pos l x = Some q.
+Proof.
+  revert q; induction l as [|y r IH]; intros q Hnd H; [destruct q; discriminate|].
+  inversion Hnd as [|? ? Hn Hd]; subst. cbn [find_pos]. destruct q as [|q]; cbn [nth_error] in H.
+  - injection H as ->. now rewrite Z.eqb_refl.
+  - destruct (y =? x) eqn:E.
+    + apply Z.eqb_eq in E. subst. exfalso. apply Hn. eapply nth_error_In; eauto.
+    + now rewrite (IH q Hd H).
+Qed.
+
+Lemma find_pos_none l x : ~ In x l -> find_pos l x = None.
+Proof.
+  induction l as [|y r IH]; intros H; [reflexivity|]. cbn [find_pos].
+  destruct (y =? x) eqn:E.
+  - apply Z.eqb_eq in E. exfalso. apply H. now left.
+  - rewrite IH; [reflexivity|]. intros H'. apply H. now right.
+Qed.
+
+Lemma find_pos_some l x : In x l -> exists q, find_pos l x = Some q.
+Proof.
+  induction l as [|y r IH]; intros H; [destruct H|]. cbn [find_pos].
+  destruct (y =? x) eqn:E; [eauto|]. apply Z.eqb_neq in E. destruct H as [H|H]; [congruence|].
+  destruct (IH H) as (q & ->). cbn. eauto.
+Qed.
+
+Lemma find_pos_lt l x q : find_pos l x = Some q -> (q < length l)%nat.
+Proof. intros H. apply find_pos_nth in H. apply nth_error_Some. congruence. Qed.
+
+(* ---------- Python index normalisation ---------- *)
+Definition pos_of (len x : Z) : nat := Z.to_nat (if x <? 0 then x + len else x).
+
+Lemma norm_idx_in len x : - len <= x < len -> norm_idx len x = Some (pos_of len x).
+Proof.
+  intros H. unfold norm_idx, pos_of.
+  destruct ((0 <=? x) && (x <? len)) eqn:E1.
+  - replace (x <? 0) with false by lia. reflexivity.
+  - replace ((- len <=? x) && (x <? 0)) with true by lia. replace (x <? 0) with true by lia. reflexivity.
+Qed.
+
+Lemma pos_of_m1 len : pos_of len (-1) = Z.to_nat (len - 1).
+Proof. unfold pos_of. change (-1 <? 0) with true. cbv iota. f_equal. lia. Qed.
+
+Lemma norm_idx_lt len x p : norm_idx len x = Some p -> (p < Z.to_nat len)%nat.
+Proof.
+  unfold norm_idx. destruct ((0 <=? x) && (x <? len)) eqn:E1.
+  - intros H; injection H as <-. lia.
+  - destruct ((- len <=? x) && (x <? 0)) eqn:E2; [|discriminate]. intros H; injection H as <-. lia.
+Qed.
+
+(* ---------- _index_of: the lookup table ---------- *)
+(* every member of the lookup list (distinct entries, each >= -1) is mapped to its position; -1 is kept
+   when it is not a member *)
+Lemma index_table_spec lookup :
+  NoDup lookup -> (forall x, In x lookup -> -1 <= x) ->
+  exists tmp, index_table lookup = Some tmp /\
+    (forall q x, nth_error lookup q = Some x -> py_get tmp x = Some (Z.of_nat q)) /\
+    (~ In (-1) lookup -> py_get tmp (-1) = Some (-1)).
+Proof.
+  intros Hnd Hge. unfold index_table.
+  set (len := zmax1 lookup + 1 + 1).
+  assert (Hlen : 1 <= len).
+  { unfold len. destruct lookup as [|a r]; [cbn [zmax1]; lia|].
+    pose proof (zmax1_ge (a :: r) a (or_introl eq_refl)). specialize (Hge a (or_introl eq_refl)). lia. }
+  assert (Hrange : forall x, In x lookup -> - len <= x < len).
+  { intros x Hx. pose proof (zmax1_ge _ _ Hx). specialize (Hge x Hx). unfold len. lia. }
+  replace (len <? 0) with false by lia.
+  rewrite (norm_idx_in len (-1)) by lia.
+  rewrite (omap_map (norm_idx len) (pos_of len) lookup) by (intros x Hx; apply norm_idx_in; auto).
+  set (init := upd (repeat 0 (Z.to_nat len)) (pos_of len (-1)) (-1)).
+  set (writes := combine (map (pos_of len) lookup) (arange (length lookup))).
+  exists (scatter init writes). split; [reflexivity|].
+  assert (Hil : length init = Z.to_nat len) by (unfold init; now rewrite upd_length, repeat_length).
+  assert (Hsl : zlen (scatter init writes) = len).
+  { unfold zlen. rewrite scatter_length, Hil. lia. }
+  assert (Hfst : map fst writes = map (pos_of len) lookup).
+  { unfold writes. apply map_fst_combine'. now rewrite map_length, arange_length. }
+  assert (Hbound : forall w, In w writes -> (fst w < length init)%nat).
+  { intros w Hw. assert (In (fst w) (map fst writes)) by now apply in_map.
+    rewrite Hfst in H. apply in_map_iff in H as (x & E & Hx). rewrite <- E, Hil.
+    specialize (Hrange x Hx). unfold pos_of. destruct (x <? 0) eqn:Ex0; lia. }
+  assert (Hinj : NoDup (map fst writes)).
+  { rewrite Hfst. apply NoDup_map_inj; [exact Hnd|]. intros x y Hx Hy E.
+    pose proof (Hge x Hx). pose proof (Hge y Hy). pose proof (zmax1_ge _ _ Hx). pose proof (zmax1_ge _ _ Hy).
+    unfold pos_of, len in E. destruct (x <? 0) eqn:Ex; destruct (y <? 0) eqn:Ey; lia. }
+  split.
+  - intros q x Hq. unfold py_get. rewrite Hsl.
+    assert (Hx : In x lookup) by (eapply nth_error_In; eauto).
+    rewrite (norm_idx_in len x) by auto.
+    assert (Hp : (pos_of len x < length (scatter init writes))%nat).
+    { rewrite scatter_length, Hil. specialize (Hrange x Hx). unfold pos_of. destruct (x <? 0) eqn:Ex0; lia. }
+    rewrite (nth_error_nth' _ 0 Hp). f_equal.
+    rewrite (scatter_nth init writes (pos_of len x) 0 Hbound).
+    rewrite (last_write_unique (pos_of len x) writes q (Z.of_nat q) Hinj); [reflexivity|].
+    unfold writes. apply nth_error_combine.
+    + now rewrite nth_error_map, Hq.
+    + apply arange_nth. apply nth_error_Some. congruence.
+  - intros Hno. unfold py_get. rewrite Hsl. rewrite (norm_idx_in len (-1)) by lia.
+    assert (Hp : (pos_of len (-1) < length (scatter init writes))%nat).
+    { rewrite scatter_length, Hil, pos_of_m1. lia. }
+    rewrite (nth_error_nth' _ 0 Hp). f_equal.
+    rewrite (scatter_nth init writes (pos_of len (-1)) 0 Hbound).
+    rewrite last_write_none.
+    + unfold init. apply upd_nth_same. rewrite repeat_length, pos_of_m1. lia.
+    + rewrite Hfst, in_map_iff. intros (x & E & Hx). apply Hno.
+      pose proof (Hge x Hx). pose proof (zmax1_ge _ _ Hx).
+      rewrite pos_of_m1 in E. unfold pos_of, len in E. destruct (x <? 0) eqn:Ex.
+      * assert (x = -1) by lia. now subst.
+      * lia.
+Qed.
+
+(* position of x in l as an integer (0 when absent: only used on members) *)
+Definition zpos (l : list Z) (x : Z) : Z := match find_pos l x with Some q => Z.of_nat q | None => 0 end.
+
+Lemma index_of_spec arr lookup :
+  NoDup lookup -> (forall x, In x lookup -> 0 <= x) -> (forall x, In x arr -> In x lookup) ->
+  index_of arr lookup = Some (map (zpos lookup) arr).
+Proof.
+  intros Hnd Hge Hsub. unfold index_of.
+  destruct (index_table_spec lookup Hnd) as (tmp & -> & Hmem & _).
+  { intros x Hx. specialize (Hge x Hx). lia. }
+  unfold py_gather. apply omap_map. intros x Hx. unfold zpos.
+  destruct (find_pos_some lookup x (Hsub x Hx)) as (q & Hq). rewrite Hq.
+  apply Hmem. now apply find_pos_nth.
+Qed.
+
+(* ---------- from_sparse: closed form ---------- *)
+Lemma omap_map_map {T U V} (f : U -> option V) (h : T -> U) (g : T -> V) l :
+  (forall x, In x l -> f (h x) = Some (g x)) -> omap f (map h l) = Some (map g l).
+Proof.
+  induction l as [|x r IH]; intros H; [reflexivity|]. cbn [omap map].
+  rewrite (H x) by now left. rewrite IH; [reflexivity|]. intros y Hy. apply H. now right.
+Qed.
+
+Lemma NoDup_snoc {T} (l : list T) a : NoDup l -> ~ In a l -> NoDup (l ++ [a]).
+Proof.
+  induction 1 as [|x l Hn Hd IH]; intros Ha; cbn [app]; [repeat constructor; intros []|].
+  constructor.
+  - rewrite in_app_iff. intros [H|[H|[]]]; [tauto|]. subst. apply Ha. now left.
+  - apply IH. intros H. apply Ha. now right.
+Qed.
+
+Lemma nth_firstn_lt {T} (l : list T) n j d : (j < n)%nat -> nth j (firstn n l) d = nth j l d.
+Proof.
+  revert l j; induction n as [|n IH]; intros l j H; [lia|].
+  destruct l as [|x l]; [now destruct j|]. cbn [firstn]. destruct j as [|j]; [reflexivity|].
+  cbn [nth]. apply IH. lia.
+Qed.
+
+Lemma nth_repeat_same {T} (x : T) n j : nth j (repeat x n) x = x.
+Proof. revert j; induction n as [|n IH]; intros [|j]; cbn; auto. Qed.
+
+Section FS.
+Context {A : Type}.
+Variable zero : A.
+
+(* relative column of an entry of the column table: its position among the requested channels, or the
+   discard column *)
+Definition loc (chans : list Z) (x : Z) : Z :=
+  if isin chans x then zpos chans x else zlen chans.
+
+Lemma loc_range chans x : 0 <= loc chans x <= zlen chans.
+Proof.
+  unfold loc, zpos, zlen. destruct (isin chans x); [|lia].
+  destruct (find_pos chans x) eqn:E; [|lia]. apply find_pos_lt in E. lia.
+Qed.
+
+Lemma loc_eq chans j ch c :
+  NoDup chans -> nth_error chans j = Some ch -> (Z.to_nat (loc chans c) = j <-> c = ch).
+Proof.
+  intros Hnd Hj. assert (Hlt : (j < length chans)%nat) by (apply nth_error_Some; congruence).
+  unfold loc. destruct (isin chans c) eqn:E.
+  - apply isin_In in E. destruct (find_pos_some chans c E) as (q & Hq). unfold zpos. rewrite Hq.
+    rewrite Nat2Z.id. pose proof (find_pos_nth _ _ _ Hq) as Hn. split.
+    + intros ->. congruence.
+    + intros ->. rewrite (nth_find_pos chans ch j Hnd Hj) in Hq. congruence.
+  - apply isin_false in E. unfold zlen. rewrite Nat2Z.id. split; [lia|].
+    intros ->. exfalso. apply E. eapply nth_error_In; eauto.
+Qed.
+
+Lemma last_write_stored (f : Z -> nat) j ch crow (drow : list A) :
+  (forall c, f c = j <-> c = ch) ->
+  last_write j (combine (map f crow) drow) = stored_last crow drow ch.
+Proof.
+  intros Hf. revert drow; induction crow as [|c cr IH]; intros [|d dr]; cbn [map combine last_write stored_last]; try reflexivity.
+  rewrite IH. destruct (stored_last cr dr ch); [reflexivity|]. cbn [fst snd].
+  destruct (c =? ch) eqn:E.
+  - apply Z.eqb_eq in E. apply Hf in E. rewrite E, Nat.eqb_refl. reflexivity.
+  - apply Z.eqb_neq in E. destruct (Nat.eqb (f c) j) eqn:E2; [|reflexivity].
+    apply Nat.eqb_eq in E2. apply Hf in E2. contradiction.
+Qed.
+
+Lemma fs_row_closed chans crow (drow : list A) :
+  NoDup chans ->
+  fs_row zero (length chans) (map (loc chans) crow) drow = Some (dense_row zero crow drow chans).
+Proof.
+  intros Hnd. unfold fs_row. set (n := length chans).
+  rewrite (omap_map_map (norm_idx (Z.of_nat n + 1)) (loc chans) (fun x => Z.to_nat (loc chans x))).
+  2:{ intros x _. pose proof (loc_range chans x) as Hr. unfold zlen in Hr. fold n in Hr.
+      unfold norm_idx. replace ((0 <=? loc chans x) && (loc chans x <? Z.of_nat n + 1)) with true by lia.
+      reflexivity. }
+  f_equal. set (writes := combine (map (fun x => Z.to_nat (loc chans x)) crow) drow).
+  assert (Hb : forall w, In w writes -> (fst w < length (repeat zero (S n)))%nat).
+  { intros w Hw. rewrite repeat_length. unfold writes in Hw. destruct w as [p v]. apply in_combine_l in Hw.
+    apply in_map_iff in Hw as (x & <- & _). cbn [fst]. pose proof (loc_range chans x) as Hr. unfold zlen in Hr.
+    fold n in Hr. lia. }
+  apply nth_ext with (d := zero) (d' := dense_cell zero crow drow 0).
+  - rewrite firstn_length, scatter_length, repeat_length. unfold dense_row. rewrite map_length. fold n. lia.
+  - rewrite firstn_length, scatter_length, repeat_length. intros j Hj.
+    assert (Hjn : (j < n)%nat) by lia.
+    rewrite nth_firstn_lt by exact Hjn. unfold dense_row. rewrite map_nth.
+    rewrite (scatter_nth _ writes j zero Hb).
+    destruct (nth_error chans j) as [ch|] eqn:Ech.
+    2:{ apply nth_error_None in Ech. fold n in Ech. lia. }
+    rewrite (nth_error_nth chans j 0 Ech).
+    unfold writes. rewrite (last_write_stored (fun x => Z.to_nat (loc chans x)) j ch).
+    2:{ intros c. now apply loc_eq. }
+    unfold dense_cell. destruct (stored_last crow drow ch); [reflexivity|].
+    apply nth_repeat_same.
+Qed.
+
+Lemma fs_rows_closed chans (data : list (list A)) cols :
+  NoDup chans -> shape_ok data cols = true ->
+  fs_rows zero (length chans) (map (map (loc chans)) cols) data = Some (dense zero data cols chans).
+Proof.
+  intros Hnd. revert cols; induction data as [|d dr IH]; intros [|c cr] H; cbn [shape_ok] in H; try discriminate;
+    cbn [map fs_rows dense]; [reflexivity|].
+  apply andb_true_iff in H as [_ H]. rewrite fs_row_closed by exact Hnd. rewrite IH by exact H. reflexivity.
+Qed.
+
+Theorem from_sparse_closed (data : list (list A)) cols chans :
+  NoDup chans -> (forall c, In c chans -> 0 <= c) -> shape_ok data cols = true ->
+  from_sparse zero data cols chans = Ok (dense zero data cols chans).
+Proof.
+  intros Hnd Hge Hsh. unfold from_sparse.
+  rewrite (proj2 (nodupb_NoDup chans) Hnd), Hsh. cbn [negb].
+  assert (Hm1 : ~ In (-1) chans) by (intros H; specialize (Hge _ H); lia).
+  destruct (index_table_spec (chans ++ [-1])) as (tmp & -> & Hmem & _).
+  { now apply NoDup_snoc. }
+  { intros x Hx. apply in_app_iff in Hx as [Hx|[<-|[]]]; [specialize (Hge _ Hx)|]; lia. }
+  rewrite (omap_map_map (py_gather tmp) (map (fun x => if isin chans x then x else -1)) (map (loc chans))).
+  2:{ intros crow _. unfold py_gather. apply omap_map_map. intros x _. unfold loc.
+      destruct (isin chans x) eqn:E.
+      - apply isin_In in E. destruct (find_pos_some chans x E) as (q & Hq). unfold zpos. rewrite Hq.
+        apply Hmem. rewrite nth_error_app1 by (eapply find_pos_lt; eauto). now apply find_pos_nth.
+      - apply (Hmem (length chans)). rewrite nth_error_app2 by lia. now rewrite Nat.sub_diag. }
+  rewrite fs_rows_closed by assumption. reflexivity.
+Qed.
+
+(* errors *)
+Lemma from_sparse_dup (data : list (list A)) cols chans :
   nodupb chans = false -> from_sparse zero data cols chans = ErrDup.
 Proof. intros H. unfold from_sparse. now rewrite H. Qed.
+
+Lemma from_sparse_shape_err (data : list (list A)) cols chans :
+  nodupb chans = true -> shape_ok data cols = false -> from_sparse zero data cols chans = ErrAssert.
+Proof. intros H1 H2. unfold from_sparse. now rewrite H1, H2. Qed.
+End FS.
+
+(* ---------- the closed form meets the declarative specification ---------- *)
+Section FSSpec.
+Context {A : Type}.
+Variable zero : A.
+
+Lemma stored_last_none crow (drow : list A) ch : ~ In ch crow -> stored_last crow drow ch = None.
+Proof.
+  revert drow; induction crow as [|c cr IH]; intros [|d dr] H; cbn [stored_last]; try reflexivity.
+  rewrite IH by (intros H'; apply H; now right).
+  destruct (c =? ch) eqn:E; [|reflexivity]. apply Z.eqb_eq in E. exfalso. apply H. now left.
+Qed.
+
+Lemma stored_last_unique crow (drow : list A) ch k :
+  length drow = length crow -> nth_error crow k = Some ch ->
+  (forall k', nth_error crow k' = Some ch -> k' = k) ->
+  exists v, stored_last crow drow ch = Some v /\ nth_error drow k = Some v.
+Proof.
+  revert drow k; induction crow as [|c cr IH]; intros [|d dr] k Hl Hk Hu; cbn [length] in Hl; try lia.
+  - destruct k; discriminate.
+  - cbn [stored_last]. destruct k as [|k]; cbn [nth_error] in *.
+    + injection Hk as ->. rewrite stored_last_none.
+      * rewrite Z.eqb_refl. eauto.
+      * intros Hin. apply In_nth_error in Hin as (k' & Hk'). specialize (Hu (S k') Hk'). discriminate.
+    + destruct (IH dr k) as (v & Hv & Hn); [lia|exact Hk| |].
+      * intros k' Hk'. specialize (Hu (S k') Hk'). lia.
+      * rewrite Hv. eauto.
+Qed.
+
+Lemma dense_cell_spec crow (drow : list A) ch :
+  length drow = length crow -> Cell_Spec zero crow drow ch (dense_cell zero crow drow ch).
+Proof.
+  intros Hl. unfold Cell_Spec, dense_cell. split.
+  - intros H. now rewrite stored_last_none.
+  - intros k Hk Hu. destruct (stored_last_unique crow drow ch k Hl Hk Hu) as (v & -> & Hn). exact Hn.
+Qed.
+
+Lemma dense_length (data : list (list A)) cols chans :
+  length data = length cols -> length (dense zero data cols chans) = length data.
+Proof.
+  revert cols; induction data as [|d dr IH]; intros [|c cr] H; cbn [length dense] in *; try lia. rewrite IH; lia.
+Qed.
+
+Lemma dense_nth (data : list (list A)) cols chans s drow crow :
+  nth_error data s = Some drow -> nth_error cols s = Some crow ->
+  nth_error (dense zero data cols chans) s = Some (dense_row zero crow drow chans).
+Proof.
+  revert cols s; induction data as [|d dr IH]; intros [|c cr] [|s] Hd Hc; cbn [nth_error dense] in *; try discriminate.
+  - now injection Hd as ->; injection Hc as ->.
+  - now apply IH.
+Qed.
+
+Lemma dense_row_nth crow (drow : list A) chans j ch :
+  nth_error chans j = Some ch -> nth_error (dense_row zero crow drow chans) j = Some (dense_cell zero crow drow ch).
+Proof. intros H. unfold dense_row. now rewrite nth_error_map, H. Qed.
+
+Lemma shape_ok_spec (data : list (list A)) cols :
+  shape_ok data cols = true <->
+  length data = length cols /\
+  forall s drow crow, nth_error data s = Some drow -> nth_error cols s = Some crow -> length drow = length crow.
+Proof.
+  revert cols; induction data as [|d dr IH]; intros [|c cr]; cbn [shape_ok length].
+  - split; [|reflexivity]. intros _. split; [reflexivity|]. intros [|s]; discriminate.
+  - split; [discriminate|]. intros [H _]. discriminate.
+  - split; [discriminate|]. intros [H _]. discriminate.
+  - rewrite andb_true_iff, IH, Nat.eqb_eq. split.
+    + intros (H1 & H2 & H3). split; [lia|]. intros [|s] drow crow Hd Hc; cbn [nth_error] in *.
+      * now injection Hd as <-; injection Hc as <-.
+      * eapply H3; eauto.
+    + intros (H1 & H2). split; [apply (H2 O); reflexivity|]. split; [lia|].
+      intros s drow crow Hd Hc. apply (H2 (S s)); assumption.
+Qed.
+
+Theorem dense_FS_Spec (data : list (list A)) cols chans :
+  shape_ok data cols = true -> FS_Spec zero data cols chans (dense zero data cols chans).
+Proof.
+  intros Hsh. apply shape_ok_spec in Hsh as (Hl & Hrows). split; [now apply dense_length|].
+  intros s crow drow Hc Hd. exists (dense_row zero crow drow chans). split; [now apply dense_nth|].
+  split; [unfold dense_row; now rewrite map_length|].
+  intros j ch Hj. exists (dense_cell zero crow drow ch). split; [now apply dense_row_nth|].
+  apply dense_cell_spec. eapply Hrows; eauto.
+Qed.
+End FSSpec.
